@@ -15,3 +15,38 @@ INJECTIONS = [
          anchor=r"impl<'a, T, N: ArrayLength> IntrusiveArrayBuilder<'a, T, N> \{(?:.|\n)*?pub unsafe fn extend\(&mut self, source: impl Iterator<Item = T>\) \{",
          text='        #[cfg(kani)] crate::verif_support::reg_builder(&self.position as *const usize);'),
 ]
+
+# ---- attribute contracts on inherent const fns (engine K; proved with #[kani::proof_for_contract]) ----
+# The postconditions are taken from the property statements (C02, C10), not from the bodies.
+def _c(name, anchor, lines):
+    return dict(group='contracts', name='contract: ' + name, file='src/lib.rs', where='before', anchor=anchor,
+                text='\n'.join('    #[cfg_attr(kani, %s)]' % l for l in lines))
+
+
+INJECTIONS += [
+    _c('as_slice', r'pub const fn as_slice\(&self\) -> &\[T\] \{', [
+        'kani::ensures(|r: &&[T]| r.len() == N::USIZE && r.as_ptr() as usize == self as *const Self as usize)']),
+    _c('try_from_slice', r'pub const fn try_from_slice\(slice: &\[T\]\) -> Result<&GenericArray<T, N>, LengthError> \{', [
+        'kani::ensures(|r: &Result<&GenericArray<T, N>, LengthError>| match r { '
+        'Ok(a) => slice.len() == N::USIZE && (*a as *const GenericArray<T, N> as usize) == slice.as_ptr() as usize, '
+        'Err(_) => slice.len() != N::USIZE })']),
+    _c('from_slice', r'pub const fn from_slice\(slice: &\[T\]\) -> &GenericArray<T, N> \{', [
+        'kani::requires(slice.len() == N::USIZE)',
+        'kani::ensures(|r: &&GenericArray<T, N>| (*r as *const GenericArray<T, N> as usize) == slice.as_ptr() as usize)']),
+    _c('chunks_from_slice', r'pub const fn chunks_from_slice\(slice: &\[T\]\) -> \(&\[GenericArray<T, N>\], &\[T\]\) \{', [
+        'kani::requires(N::USIZE != 0 || slice.len() == 0)',
+        'kani::ensures(|r: &(&[GenericArray<T, N>], &[T])| N::USIZE != 0 || (r.0.len() == 0 && r.1.len() == 0))',
+        'kani::ensures(|r: &(&[GenericArray<T, N>], &[T])| N::USIZE == 0 || ('
+        'r.0.len() == slice.len() / N::USIZE && r.1.len() == slice.len() % N::USIZE '
+        '&& r.0.as_ptr() as usize == slice.as_ptr() as usize '
+        '&& r.1.as_ptr() as usize == slice.as_ptr() as usize + (slice.len() / N::USIZE) * N::USIZE * core::mem::size_of::<T>()))']),
+    _c('slice_from_chunks', r'pub const fn slice_from_chunks\(slice: &\[GenericArray<T, N>\]\) -> &\[T\] \{', [
+        'kani::ensures(|r: &&[T]| r.len() == slice.len() * N::USIZE && r.as_ptr() as usize == slice.as_ptr() as usize)']),
+]
+
+# ---- scope marker: the by-value iterator's own Drop is running (destructor monitor, C05) ----
+INJECTIONS += [
+    dict(group='iterdrop', name='scope marker: Drop for GenericArrayIter', file='src/iter.rs', where='after',
+         anchor=r'impl<T, N: ArrayLength> Drop for GenericArrayIter<T, N> \{\s*fn drop\(&mut self\) \{',
+         text='        #[cfg(kani)] let _verif_scope = crate::verif_support::IterDropScope::enter();'),
+]
